@@ -4,6 +4,7 @@ import (
 	"fmt"
 	"io"
 	"math"
+	"runtime"
 	"sync"
 	"sync/atomic"
 	"time"
@@ -20,7 +21,10 @@ func runC01(c *mon.Ctx) {
 	case "lifecycle":
 		c.Cases(func(i int, r *mon.Rand) { lifecycleCase(c, r, "C01") })
 	case "stress":
-		c.Cases(func(i int, r *mon.Rand) { c01Stress(c, r) })
+		c.Cases(func(i int, r *mon.Rand) {
+			c01Stress(c, r)
+			c01FirstSamplesRace(c, r.Fork(31))
+		})
 	default:
 		c.Cases(func(i int, r *mon.Rand) { c01Token(c, r) })
 	}
@@ -292,7 +296,7 @@ func c01Stress(c *mon.Ctx, r *mon.Rand) {
 	// counters that every guaranteed worker uses for the first time at the same
 	// moment and keeps a handle to (first use racing first use and the passes)
 	const nShared = 4
-	var sharedSum [nShared]int64
+	var sharedSum, sharedHSum [nShared]int64
 	sharedScope := root.SubScope("firstuse")
 	barrier := make(chan struct{})
 	// guaranteed workers
@@ -308,6 +312,11 @@ func c01Stress(c *mon.Ctx, r *mon.Rand) {
 				sh[k] = sharedScope.Counter(fmt.Sprintf("sh%d", k))
 				sh[k].Inc(1)
 				atomic.AddInt64(&sharedSum[k], 1)
+			}
+			// and the very first samples of one bucket of fresh histograms
+			for k := 0; k < nShared; k++ {
+				sharedScope.Histogram(fmt.Sprintf("shh%d", k), tally.ValueBuckets{}).RecordValue(1)
+				atomic.AddInt64(&sharedHSum[k], 1)
 			}
 			for i := 0; i < iters; i++ {
 				if i%16 == 0 {
@@ -423,6 +432,11 @@ func c01Stress(c *mon.Ctx, r *mon.Rand) {
 			}
 		}
 		for k := 0; k < nShared; k++ {
+			if a := agg[mon.BucketKeyV(fmt.Sprintf("firstuse.shh%d", k), nil, -math.MaxFloat64, math.MaxFloat64)]; a.Sum != sharedHSum[k] {
+				c.Violation("conservation-first-use", map[string]interface{}{"why": fmt.Sprintf("histogram firstuse.shh%d: %d samples delivered, %d recorded as the first samples of its bucket by %d workers at the same moment", k, a.Sum, sharedHSum[k], nWorkers), "case": desc})
+			}
+		}
+		for k := 0; k < nShared; k++ {
 			a := agg[mon.IdentKey(fmt.Sprintf("firstuse.sh%d", k), nil)]
 			if a.Sum != sharedSum[k] {
 				c.Violation("conservation-first-use", map[string]interface{}{"why": fmt.Sprintf("firstuse.sh%d: delivered total %d, incremented total %d through the handles %d workers obtained at the same moment", k, a.Sum, sharedSum[k], nWorkers), "case": desc})
@@ -494,4 +508,56 @@ func mergeStats(c *mon.Ctx, hits, inter map[string]int64) {
 	}
 	c.SetExtra("hook_hits", h)
 	c.SetExtra("hook_windows_interleaved", i)
+}
+
+// c01FirstSamplesRace: the very first samples of one histogram bucket (and the
+// very first increments of one counter) arrive from several goroutines at the
+// same moment; one pass later every one of them must have been delivered.
+// Forty fresh metrics per call.
+func c01FirstSamplesRace(c *mon.Ctx, r *mon.Rand) {
+	cached := r.Bool()
+	var rec *mon.Recorder
+	opts := tally.ScopeOptions{OmitCardinalityMetrics: true}
+	if cached {
+		cr := mon.NewCachedRec(false)
+		rec = cr.Recorder
+		opts.CachedReporter = cr
+	} else {
+		pr := mon.NewPlainRec(false)
+		rec = pr.Recorder
+		opts.Reporter = pr
+	}
+	root, _ := vNewRoot(opts, 0, uint(r.Range(0, 2)))
+	G := r.Range(2, 8)
+	const rounds = 40
+	for k := 0; k < rounds; k++ {
+		h := root.Histogram(fmt.Sprintf("fh%d", k), tally.ValueBuckets{10})
+		ctr := root.Counter(fmt.Sprintf("fc%d", k))
+		var wg sync.WaitGroup
+		var ready int32
+		for g := 0; g < G; g++ {
+			wg.Add(1)
+			go func() {
+				defer wg.Done()
+				atomic.AddInt32(&ready, 1)
+				for atomic.LoadInt32(&ready) < int32(G) {
+					runtime.Gosched()
+				}
+				h.RecordValue(1)
+				ctr.Inc(1)
+			}()
+		}
+		wg.Wait()
+	}
+	tally.VerifReportPass(root)
+	_, agg, _ := rec.Snapshot()
+	for k := 0; k < rounds; k++ {
+		if a := agg[mon.BucketKeyV(fmt.Sprintf("fh%d", k), nil, -math.MaxFloat64, 10)]; a.Sum != int64(G) {
+			c.Violation("conservation-first-use", map[string]interface{}{"why": fmt.Sprintf("histogram fh%d: %d samples delivered, %d goroutines recorded the first samples of its bucket at the same moment", k, a.Sum, G), "cached": cached})
+		}
+		if a := agg[mon.IdentKey(fmt.Sprintf("fc%d", k), nil)]; a.Sum != int64(G) {
+			c.Violation("conservation-first-use", map[string]interface{}{"why": fmt.Sprintf("counter fc%d: %d delivered, %d goroutines made its first increments at the same moment", k, a.Sum, G), "cached": cached})
+		}
+	}
+	c.Event("first-sample-races", rounds)
 }
